@@ -172,7 +172,7 @@ Section Values.
     { apply hoareT_ret. rewrite app_nil_r. apply Hfin; try reflexivity; auto. }
     destruct (is_f0_min_change_reached _ _ _).
     { apply hoareT_ret. rewrite app_nil_r. apply Hfin; try reflexivity; auto. }
-    destruct (update_mem K c _ _ _ _ _) as [[X2 G3] m2].
+    destruct (update_mem_f K c _ _ _ _ _ _) as [[X2 G3] m2].
     destruct (u_cb U) as [cb|].
     - eapply hoareT_bind with (R1 := fun b tr => exists snap, tr = [EvCb snap (cb snap)] /\ r_x snap = trial (s_x s) d a /\ r_fun snap = f0 /\ r_jac snap = g).
       { apply hoareT_call. intros b Hb. eexists. split; [reflexivity|]. cbn. auto. }
